@@ -14,13 +14,15 @@ NOTN = {"float": "float", "DECAngle": "dec", "HPAngle": "hp", "GONAngle": "gon",
 
 
 def hp_digits(hp):
-    """HP float -> (neg, D, MM, SS, frac9) read off the exact value rounded at 13 decimals.
-    frac9 = nano-arc-seconds (0..999999999)."""
+    """HP float -> (neg, D, MM, SS, frac9) read off the exact value rounded at 13 decimals (12 decimals from 512
+    degrees on, where a double no longer carries the 13th).  frac9 = nano-arc-seconds (0..999999999)."""
     fr = Fraction(float(hp))
     neg = fr < 0
     if neg:
         fr = -fr
-    q = (fr.numerator * 10 ** 13 * 2 + fr.denominator) // (2 * fr.denominator)
+    nd = 13 if fr < 512 else 12
+    q = (fr.numerator * 10 ** nd * 2 + fr.denominator) // (2 * fr.denominator)
+    q *= 10 ** (13 - nd)
     D, rest = divmod(q, 10 ** 13)
     MM, rest = divmod(rest, 10 ** 11)
     SS, frac9 = divmod(rest, 10 ** 9)
